@@ -708,7 +708,7 @@ const SET_KILL_GROUPS: &[(&str, &[&str])] = &[
     ("", &["set -f -- a b", "set -f a b", "set -f - a b", "set --noglob -- a b", "set -o noglob a b", "set -o noglob -- a b"]),
     ("", &["set -- -a b", "set - -a b"]),
     ("set x y", &["set --", "set -f +f --"]),
-    ("trap 'probe got' USR1", &["kill -s USR1 $$", "kill -sUSR1 $$", "kill -s usr1 $$", "kill -s SIGUSR1 $$", "kill -USR1 $$", "kill -s USR1 -- $$", "kill -n USR1 $$", "kill -nUSR1 $$"]),
+    ("trap 'probe got' USR1", &["kill -s USR1 $$", "kill -sUSR1 $$", "kill -s usr1 $$", "kill -s SIGUSR1 $$", "kill -USR1 $$", "kill -s USR1 -- $$", "kill -n USR1 $$", "kill -nUSR1 $$", "kill -sSIGUSR1 $$", "kill -nSIGUSR1 $$", "kill -ssigusr1 $$", "kill -s sigusr1 $$", "kill -SIGUSR1 $$"]),
     ("", &["kill -s 0 $$", "kill -0 $$", "kill -n 0 $$", "kill -s 0 -- $$", "kill -n0 $$"]),
     ("", &["kill -l", "kill -l --"]),
     ("", &["kill -l USR1", "kill -l -- USR1"]),
